@@ -103,7 +103,9 @@ def run(ctx):
     ctx.rule = ("(1) PyFormat model vs real Python: every generated site and synthetic %-/format templates x 0..3 "
                 "arguments; (2) OverLinks model vs the real Builder on scripts of random `frame x in y` graphs "
                 "(cycles through / not through the first frame, self loops, dangling names): built iff every walk is "
-                "Done, never a hang; (3) dynamic: directed corpus, the example plans, grammar-aware random scripts and "
+                "Done, never a hang; (0) directed name-collision scripts (clone tag = aux framer name / other clone tag, clone "
+                "full name = existing framer, aux named twice; every ordered pair of 16 aux lines in one / two frames); "
+                "(3) dynamic: directed corpus, the example plans, grammar-aware random scripts and "
                 "token mutations of the plans through the real Builder in fresh subprocesses under a wall-clock alarm, "
                 "outcome class must be built / not built (ResolveError) / ParseError / ValueError; "
                 "non-trivial = a script that gets past the first line (not rejected at dispatch)")
@@ -119,6 +121,25 @@ def run(ctx):
     t = gen(ctx)
     ctx.coq_build("C14/Props.v")
     rng = ctx.rng
+
+    # ---- (0) directed family, both tiers, first: NAME COLLISIONS at resolve time -----------------------
+    # clone tag = ordinary aux framer's name in the same framer (both declaration orders, same frame / two
+    # frames), clone tag = another clone tag, clone full name <framer>_<tag> = an existing framer name,
+    # the same aux named twice in one frame / in two frames.  Statement: C14's (outcome classes below).
+    colls = G.collision_scripts()
+    cres = run_scripts(ctx, colls, limit=3.0, chunk=60)
+    for s, r in zip(colls, cres):
+        cls, key = classify(r)
+        lines = s.split("\n")
+        im = lines.index("framer main be active first start")
+        show = [ln.strip() for ln in lines[im:] if ln.startswith("    aux ")] + \
+               [("before: " if i < im else "after: ") + ln for i, ln in enumerate(lines)
+                if i >= 10 and i != im and ln.startswith("framer ")]
+        ctx.case({"kind": "collision", "script": show, "outcome": r[:2]},
+                 nontrivial=r[0] != "ParseError", kind="collision:" + cls)
+        if key:
+            note(ctx, key, s, r)
+    ctx.extra["collision_scripts"] = len(colls)
 
     # ---- (1) PyFormat correspondence -------------------------------------------------------
     cases, metas = [], []
